@@ -143,11 +143,37 @@ func VH_C03_Near() {
 func VH_C03_Table() {
 	Y := vParam("Y")
 	l := NewSolar(Y, 6, 15, 0, 0, 0).GetLunar()
+	secOf := func(a *Solar) int { return specJDN(a.year, a.month, a.day)*86400 + a.hour*3600 + a.minute*60 + a.second }
 	for i := 1; i < len(JIE_QI_IN_USE); i++ {
 		vAssert("increasing", specTermEntryCmp(l, i-1, i, false) < 0)
 		a, b := l.jieQi[JIE_QI_IN_USE[i-1]], l.jieQi[JIE_QI_IN_USE[i]]
 		gap := specJDN(b.year, b.month, b.day) - specJDN(a.year, a.month, a.day)
 		vAssert("spacing-days", gap >= 14 && gap <= 16)
+		// 14.6 .. 15.8 days, in seconds
+		gs := secOf(b) - secOf(a)
+		vAssert("spacing-14.6-15.8-days", gs >= 1261440 && gs <= 1365120)
+	}
+	// each entry is the year's own instant (raw Julian Day of the lunar-year object) rounded to the second; the
+	// independent rounding below is skipped when the instant is within a millisecond of a half second
+	jds := NewLunarYear(l.year).jieQiJulianDays
+	vAssert("table-length", len(jds) == len(JIE_QI_IN_USE) && len(l.jieQi) == len(JIE_QI_IN_USE))
+	for i, name := range JIE_QI_IN_USE {
+		x := jds[i] + 0.5
+		N := int(x)
+		fs := (x - float64(N)) * 86400
+		sec := int(fs + 0.5)
+		if d := fs - float64(int(fs)) - 0.5; d > -0.001 && d < 0.001 {
+			continue
+		}
+		vAssert("entry-is-instant", secOf(l.jieQi[name]) == N*86400+sec)
+	}
+	// tables of adjacent years give the same instant for the seven terms they share
+	if Y+1 <= 9998 {
+		n := NewSolar(Y+1, 6, 15, 0, 0, 0).GetLunar()
+		for k := 0; k < 7; k++ {
+			a, b := l.jieQi[JIE_QI_IN_USE[24+k]], n.jieQi[JIE_QI_IN_USE[k]]
+			vAssert("adjacent-years-agree", secOf(a) == secOf(b))
+		}
 	}
 	vReach("C03t")
 }
